@@ -128,5 +128,7 @@ class NNDVI(BatchDetector):
             )
             d_shuffle.append(d_i_shuffle)
         mu, std = norm.fit(d_shuffle)
-        drift_threshold = norm.ppf(1 - alpha, mu, std)
+        # same value as norm.ppf(1 - alpha, mu, std), but also defined when all
+        # sampled distances coincide (std == 0), where scipy returns nan
+        drift_threshold = norm.ppf(1 - alpha) * std + mu
         return drift_threshold
